@@ -79,6 +79,7 @@ from apischema.types import AnyType, NoneType, Undefined, UndefinedType
 from apischema.typing import (
     get_args,
     get_origin,
+    is_literal,
     is_new_type,
     is_type,
     is_type_var,
@@ -129,6 +130,9 @@ def expected_class(tp: AnyType) -> type:
         return expected_class(origin.__supertype__)
     elif is_type_var(origin) or origin is Any:
         return object
+    elif is_literal(tp):
+        # isinstance accepts a tuple of classes
+        return tuple({value.__class__ for value in get_args(tp)})  # type: ignore
     else:
         raise TypeError(f"{tp} is not supported in union serialization")
 
